@@ -19,6 +19,15 @@ public:
   NumCalcApplicationTools();
   virtual ~NumCalcApplicationTools();
 
+  /**
+   * @brief The largest number of values that seqFromString() expands for one range and that
+   * getVector() builds for one 'seq(...)' description.
+   *
+   * A longer range or sequence (e.g. "0-2000000000", or a step that is tiny compared to the
+   * bounds) raises an Exception instead of allocating memory without bound.
+   */
+  static constexpr int MAX_SEQUENCE_LENGTH = 10000000;
+
 public:
   /**
    * @brief Build a vector of integers as described by a string
@@ -31,6 +40,7 @@ public:
    * @param delim Delimiter between elements.
    * @param seqdelim Delimiter between min and max for a sequence.
    * @return A vector containing the integers
+   * @throw Exception If an element is not an integer, or if a range spans MAX_SEQUENCE_LENGTH values or more.
    */
   static std::vector<int> seqFromString(const std::string& s, const std::string& delim = ",", const std::string& seqdelim = "-");
 
@@ -51,7 +61,9 @@ public:
    * @author Julien Dutheil
    * @param desc The string to parse.
    * @return A vector containing the corresponding values as double.
-   * @throw Exception If the syntax describing the set is not correct.
+   * @throw Exception If the syntax describing the set is not correct, if 'step' is not positive
+   * or too small to advance from one value to the next, if 'size' is not in [1, MAX_SEQUENCE_LENGTH],
+   * or if the sequence would have more than MAX_SEQUENCE_LENGTH values.
    */
   static std::vector<double> getVector(const std::string& desc);
 
